@@ -72,6 +72,9 @@ var replayers = map[string]func(r *Replay, driver, scratch string) (bool, string
 			if sign(clover.VerifCompare(a, b)) != -sign(clover.VerifCompare(b, a)) {
 				return true, "Compare is not sign-antisymmetric on the pair"
 			}
+			if want, known := c10Direct(a, b); known && sign(clover.VerifCompare(a, b)) != want {
+				return true, "Compare does not order the pair by type rank / numeric value"
+			}
 			dr := StartDriver(driver)
 			m := dr.Ask(ln)
 			dr.Close()
@@ -127,6 +130,26 @@ var replayers = map[string]func(r *Replay, driver, scratch string) (bool, string
 			}
 			if m := dr.Ask(ln); m != hx(k) {
 				return true, "index key bytes differ from the Lean model"
+			}
+		}
+		return false, ""
+	},
+	"codec": func(r *Replay, driver, scratch string) (bool, string) {
+		for _, ln := range caseLines(r) {
+			if ln["k"] != "codec" {
+				continue
+			}
+			m := decDoc(ln["doc"])
+			enc, err := d.Encode(d.NewDocumentOf(m))
+			if err != nil {
+				return true, "Encode: " + err.Error()
+			}
+			dec, err := d.Decode(enc)
+			if err != nil {
+				return true, "Decode(Encode(d)): " + err.Error()
+			}
+			if canonDoc(dec.AsMap()) != canonDoc(m) {
+				return true, "Decode(Encode(d)) = " + canonDoc(dec.AsMap()) + ", d = " + canonDoc(m)
 			}
 		}
 		return false, ""
